@@ -27,9 +27,9 @@ expr tok  := "v<x>" | "L:<shape>:<k>:<re>[:<im>]" | "S:<k>:<re>[:<im>]" | "F:<g>
            | "as.<k>" | ftrace | fdot | mm1 | where | clip        (red also: prod any all; k also: i)
 ```
 C19 select <cpu> <mkl:0|1> <fftw:0|1> <m1,m2,…|-> <threads|-> <big:0|1> <dtype> <failing m.t>*
-      `_make_func`: answer `ok sel=<m>.<t>|E:<err> calls=<m.t,…|-> warns=<n> prec=<p|-> workers=<n|->`
+      `_make_func`: answer `ok sel=<m>.<t>|E:<err> calls=<m.t,…|-> warns=<n> prec=<p|-> workers=<n|-> std=<0|1>`
 C19 mft <pre:0|1> <alloc:0|1> <call>*      call := <f|b>.<64|128>; one MFT object, provenance kernels
-      answer `ok <state>/<result> …` per call, state = m<64|128|->i<64|128|->, result = fresh | stale:<…>
+      answer `ok <state>/<result> …` per call, state = m<64|128|->i<64|128|->k<0|1> (k: `keyedB`), result = fresh | stale
 C19 nft <pre:0|1> <call>*                  answer `ok f<0|1>b<0|1>/<fresh|stale> …`
 ```
 Answer of `run`: `ok O <obs>* | N <obs>* | DO <obs>* | DN <obs>* | A <0|1> <i|->` — the per-statement
@@ -274,10 +274,10 @@ def stepSelect : List String → Option String
     match select cpu avail works methods threads big with
     | .ok (m, t) =>
       let wk := match workersArg m t with | some n => toString n | none => "-"
-      pure s!"ok sel={showCall (m, t)} calls={cs} warns={w} prec={showPrec (outPrec m dt)} workers={wk}"
+      pure s!"ok sel={showCall (m, t)} calls={cs} warns={w} prec={showPrec (outPrec m dt)} workers={wk} std={if dt.standard then 1 else 0}"
     | .error e =>
       let es := match e with | .value => "value" | .unbound => "unbound"
-      pure s!"ok sel=E:{es} calls={cs} warns={w} prec=- workers=-"
+      pure s!"ok sel=E:{es} calls={cs} warns={w} prec=- workers=- std={if dt.standard then 1 else 0}"
   | _ => none
 
 def parseCall? (i : Nat) (s : String) : Option (Dir × CPrec × (Nat × CPrec)) :=
@@ -296,13 +296,19 @@ def showCP : Option CPrec → String
 
 /-- run the script on one object, reporting the cache keys after every call and whether the result
 is the one of a fresh switch-less object -/
-def mftTrace (pre alloc : Bool) : MftCache CPrec BufProv → List (Dir × CPrec × (Nat × CPrec)) → List String
+def mftStates (pre alloc : Bool) : MftCache CPrec BufProv → List (Dir × CPrec × (Nat × CPrec)) → List String
   | _, [] => []
   | c, (d, p, x) :: rest =>
-    let (r, c') := mftCall provKern pre alloc c d p x
-    let st := s!"m{showCP (c'.mats.map (·.1))}i{showCP (c'.interm.map (·.1))}"
-    let res := if r == mftFresh provKern d p x then "fresh" else "stale"
-    s!"{st}/{res}" :: mftTrace pre alloc c' rest
+    let c' := (mftCall provKern pre alloc c d p x).2
+    let k := if keyedB provKern c' then "k1" else "k0"
+    s!"m{showCP (c'.mats.map (·.1))}i{showCP (c'.interm.map (·.1))}{k}" :: mftStates pre alloc c' rest
+
+/-- results through `mftRun` (the object of `mft_switch_independent`), states through `mftCall`/`keyedB` -/
+def mftTrace (pre alloc : Bool) (script : List (Dir × CPrec × (Nat × CPrec))) : List String :=
+  let rs := mftRun provKern pre alloc script
+  let fs := script.map fun s => mftFresh provKern s.1 s.2.1 s.2.2
+  let flags := List.zipWith (fun r f => if r == f then "fresh" else "stale") rs fs
+  List.zipWith (fun st fl => s!"{st}/{fl}") (mftStates pre alloc {} script) flags
 
 def nftProv : NftKern Nat Dir (Dir × Nat × Option CPrec) where
   matrix d := d
@@ -310,22 +316,29 @@ def nftProv : NftKern Nat Dir (Dir × Nat × Option CPrec) where
   direct d x := (d, x, none)
   castTo p r := (r.1, r.2.1, some p)
 
-def nftTrace (pre : Bool) : NftCache Dir → List (Dir × CPrec × (Nat × CPrec)) → List String
+def nftStates (pre : Bool) : NftCache Dir → List (Dir × CPrec × Nat) → List String
   | _, [] => []
   | c, (d, p, x) :: rest =>
-    let (r, c') := nftCall nftProv pre c d p x.1
-    let st := s!"f{if c'.fwd.isSome then 1 else 0}b{if c'.bwd.isSome then 1 else 0}"
-    let res := if r == (nftCall nftProv false {} d p x.1).1 then "fresh" else "stale"
-    s!"{st}/{res}" :: nftTrace pre c' rest
+    let c' := (nftCall nftProv pre c d p x).2
+    s!"f{if c'.fwd.isSome then 1 else 0}b{if c'.bwd.isSome then 1 else 0}" :: nftStates pre c' rest
+
+/-- results through `nftRunFrom` with the switch as given and with the switch off (the two sides of
+`nft_switch_independent`) -/
+def nftTrace (pre : Bool) (script : List (Dir × CPrec × (Nat × CPrec))) : List String :=
+  let sc := script.map fun s => (s.1, s.2.1, s.2.2.1)
+  let rs := (nftRunFrom nftProv pre {} sc).1
+  let fs := (nftRunFrom nftProv false {} sc).1
+  let flags := List.zipWith (fun r f => if r == f then "fresh" else "stale") rs fs
+  List.zipWith (fun st fl => s!"{st}/{fl}") (nftStates pre {} sc) flags
 
 def stepFourier : List String → Option String
   | "select" :: rest => stepSelect rest
   | "mft" :: pre :: alloc :: calls => do
     let pre ← parseBit? pre; let alloc ← parseBit? alloc; let sc ← parseScript? calls
-    pure ("ok " ++ " ".intercalate (mftTrace pre alloc {} sc))
+    pure ("ok " ++ " ".intercalate (mftTrace pre alloc sc))
   | "nft" :: pre :: calls => do
     let pre ← parseBit? pre; let sc ← parseScript? calls
-    pure ("ok " ++ " ".intercalate (nftTrace pre {} sc))
+    pure ("ok " ++ " ".intercalate (nftTrace pre sc))
   | _ => none
 
 end Fourier
